@@ -194,7 +194,7 @@ def diff(ll, iters, seed):
 
 # ------------------------------------------------------------------ MatrixMarket reader at token level (cwrap/k_mm.cpp + cwrap/stub_mm)
 VT_LINES, VT_TOKS = 8, 6
-def mm_setup(ll, nlines, timeout_ms, body=False):
+def mm_setup(ll, nlines, timeout_ms, body=False, sizes=None):
     """file = nlines lines (concrete count); line 0 = banner with symbolic words; one optional comment line; all numeric tokens symbolic.
        body tasks: valid banner of an integer coordinate file, general or symmetric; otherwise every word is the expected one or an unknown one"""
     t = Task(ll, timeout_ms); e = t.eng; st = t.st
@@ -203,12 +203,14 @@ def mm_setup(ll, nlines, timeout_ms, body=False):
         for b in range(nb): o.bytes[idx * nb + b] = z3.simplify(z3.Extract(8 * b + 7, 8 * b, val))
     seti('@vt_open_fails', 0, bvv(0, 32), 32); seti('@vt_nlines', 0, bvv(nlines, 32), 32); t.inputs['nlines'] = nlines
     for L in range(VT_LINES):
-        c = z3.BitVec('comment_%d' % L, 32) if L == 1 else bvv(0, 32)      # only the line after the banner may be a comment (the reader skips comments only there)
-        if L == 1: st.pc.append(z3.Or(c == 0, c == 1)); t.inputs['comment[1]'] = c
+        c = z3.BitVec('comment_%d' % L, 32) if (L == 1 and sizes is None) else bvv(0, 32)      # only the line after the banner may be a comment (the reader skips comments only there)
+        if L == 1 and sizes is None: st.pc.append(z3.Or(c == 0, c == 1)); t.inputs['comment[1]'] = c
         seti('@vt_comment', L, c, 32)
         nt = z3.BitVec('ntok_%d' % L, 32); st.pc += [nt >= 0, nt <= VT_TOKS]; seti('@vt_ntok', L, nt, 32); t.inputs['ntok[%d]' % L] = nt
         for k in range(VT_TOKS):
-            v = z3.BitVec('tok_%d_%d' % (L, k), 64); seti('@vt_tok', L * VT_TOKS + k, v, 64); t.inputs['tok[%d][%d]' % (L, k)] = v
+            v = z3.BitVec('tok_%d_%d' % (L, k), 64)
+            if sizes is not None and L == 1 and k < 3: v = bvv(sizes[k], 64)        # concrete size line 'n m nnz' (no comment line)
+            seti('@vt_tok', L * VT_TOKS + k, v, 64); t.inputs['tok[%d][%d]' % (L, k)] = v if not z3.is_bv_value(v) else sizes[k]
             if L == 0 and k < 5:
                 w = z3.BitVec('word_%d' % k, 32); allowed = [(0,), (1,), (2,), (6,), (7, 8)][k] if body else [(0, 9), (1, 9), (2, 3, 9), (4, 5, 6, 9), (7, 8, 9)][k]; st.pc.append(z3.Or(*[w == a for a in allowed])); t.inputs['word[0][%d]' % k] = w
             else: w = bvv(9, 32)
@@ -286,6 +288,32 @@ def diff_mm(ll, iters, seed):
             for oid in [k for k, o in box[0].objs.items() if o.name == 'drv' or (o.kind in ('heap', 'stack') and not o.alive)]: del box[0].objs[oid]
     return lines
 
+def h_mm_slice(ll, nlines, budget, timeout_ms, rng, n=2):
+    """the same (symbolic token) file read completely and by the row range rng: the range read is exactly the slice of the full read
+       (symmetric expansion included).  valid banner; the range must be valid for the file (0 <= rb <= re <= rows), otherwise nothing is claimed"""
+    # concrete size line: n x n matrix with nlines-2 entry lines (so the reader's floating-point capacity estimate is concrete and computed exactly); entries symbolic
+    t = mm_setup(ll, nlines, timeout_ms, True, sizes=(n, n, max(nlines - 2, 0))); st = t.st; cap = 2 * VT_LINES + 2; rb, re_ = rng; t.inputs['row_beg'] = rb; t.inputs['row_end'] = re_
+    def outs(tag): return [t.out(tag + n, s) for n, s in (('rows', 8), ('cols', 8), ('ptr', 4 * cap), ('col', 4 * cap), ('val', 4 * cap), ('pl', 4), ('cl', 4), ('vl', 4), ('sym', 4))]
+    A = outs('full_'); B = outs('part_'); t.start()
+    def rd64(o): return z3.simplify(z3.Concat(*[o.bytes[k] for k in range(7, -1, -1)]))
+    def args(O, a, b): return [bvv(a, 64), bvv(b, 64), O[0][1], O[1][1], O[2][1], bvv(cap, 32), O[3][1], O[4][1], bvv(cap, 32), O[5][1], O[6][1], O[7][1], O[8][1]]
+    def after_full(s1):
+        if s1.retval is None or not z3.is_true(z3.simplify(s1.retval == 0)): return          # the full read threw: nothing to compare
+        s1.done = False
+        def after_part(s2):
+            if s2.retval is None: t.findings.append(irsx.Violation("escaped-exception", "an exception left the wrapper", s2.model)); return
+            O = lambda x: s2.objs[x[0]]; rows = rd64(O(A[0])); r2 = s2.retval
+            P1 = [rd32(O(A[2]), i) for i in range(cap)]; C1 = [rd32(O(A[3]), i) for i in range(cap)]; V1 = [rd32(O(A[4]), i) for i in range(cap)]
+            P2 = [rd32(O(B[2]), i) for i in range(cap)]; C2 = [rd32(O(B[3]), i) for i in range(cap)]; V2 = [rd32(O(B[4]), i) for i in range(cap)]; pl2 = rd32(O(B[5]), 0); cl2 = rd32(O(B[6]), 0)
+            valid = z3.And(rows >= re_, rb <= re_)
+            base = P1[rb] if rb < cap else bvv(0, 32); conds = [r2 == 0, rd64(O(B[0])) == re_ - rb, pl2 == re_ - rb + 1, cl2 == (P1[re_] if re_ < cap else bvv(0, 32)) - base]
+            for i in range(re_ - rb + 1): conds.append(P2[i] == P1[rb + i] - base)
+            for j in range(cap): conds.append(z3.Implies(bvv(j, 32) < cl2, z3.And(C2[j] == sel(C1, base + j, cap), V2[j] == sel(V1, base + j, cap))))
+            t.post(s2, z3.Implies(valid, z3.And(*conds)), lambda m: "reading rows [%d,%d) is not the slice of the full read: rc=%s, %s entries against %s in the slice" % (rb, re_, m.eval(r2), m.eval(cl2), m.eval(conds[3].arg(1))))
+        t.findings += t.eng.run(s1, '@k_mm_read_sparse', args(B, rb, re_), after_part, budget)
+    t.findings = t.eng.run(st, '@k_mm_read_sparse', args(A, -1, -1), after_full, budget) + t.findings
+    return t
+
 if __name__ == '__main__':
     ap = argparse.ArgumentParser(); ap.add_argument('--ll', required=True); ap.add_argument('--harness'); ap.add_argument('--fcap', type=int, default=24); ap.add_argument('--len', type=int, default=0); ap.add_argument('--n', type=int, default=1); ap.add_argument('--nnz', type=int, default=1); ap.add_argument('--m', type=int, default=1)
     ap.add_argument('--budget', type=float, default=600); ap.add_argument('--timeout-ms', type=int, default=30000); ap.add_argument('--out'); ap.add_argument('--diff', nargs=2, type=int); ap.add_argument('--diff-mm', nargs=2, type=int); ap.add_argument('--range', nargs=2, type=int)
@@ -302,10 +330,12 @@ if __name__ == '__main__':
     elif a.harness == 'crs_roundtrip': t = h_crs_roundtrip(a.ll, a.n, a.nnz, a.budget, a.timeout_ms); params = dict(n=a.n, nnz=a.nnz)
     elif a.harness == 'crs_roundtrip8': t = h_crs_roundtrip(a.ll, a.n, a.nnz, a.budget, a.timeout_ms, vbytes=8); params = dict(n=a.n, nnz=a.nnz, payload_bytes=8)
     elif a.harness == 'dense_roundtrip': t = h_dense_roundtrip(a.ll, a.n, a.m, a.budget, a.timeout_ms); params = dict(n=a.n, m=a.m)
+    elif a.harness == 'mm_slice': t = h_mm_slice(a.ll, a.n, a.budget, a.timeout_ms, tuple(a.range), n=a.m); params = dict(nlines=a.n, row_range=list(a.range), size=a.m)
     elif a.harness == 'mm_sparse_robust': t = h_mm_sparse_robust(a.ll, a.n, a.budget, a.timeout_ms, body=(a.m == 1), rng=(tuple(a.range) if a.range else None)); params = dict(nlines=a.n, banner=('valid' if a.m == 1 else 'any'), row_range=(a.range or 'symbolic in [-1,4]^2'))
     else: sys.exit("unknown harness")
     res = t.result(a.harness, params, time.time() - t0)
     if a.out: json.dump(res, open(a.out, 'w'), indent=1)
     print(json.dumps(dict((k, v) for k, v in res.items() if k != 'findings'))); [print("FINDING", json.dumps(f)) for f in res['findings'][:3]]
+
 
 
